@@ -238,6 +238,9 @@ def run_kani_unit(prop, unit, tier, report):
                 report["undecided"].append(f"{unit['name']}: probe generator failed: {gout[-800:]}")
                 return
             srcs.append(genpy)
+        tin = os.path.join(crate_dir, "Cargo.toml.in")
+        if os.path.exists(tin):
+            open(os.path.join(crate_dir, "Cargo.toml"), "w").write(open(tin).read().replace("@REPO@", REPO))
         lock = os.path.join(REPO, "Cargo.lock")
         if os.path.exists(lock):
             shutil.copy(lock, os.path.join(crate_dir, "Cargo.lock"))
